@@ -68,11 +68,11 @@ def framework_hash():
 
 
 class Workspace:
-    def __init__(self, tier, seed):
+    def __init__(self, tier, seed, extra=''):
         self.tier = tier
         self.seed = seed
         self.repo_hash = repo_tree_hash()
-        key = hashlib.sha256(('%s|%s|%s|%s' % (self.repo_hash, framework_hash(), tier, seed)).encode()).hexdigest()[:20]
+        key = hashlib.sha256(('%s|%s|%s|%s|%s' % (self.repo_hash, framework_hash(), tier, seed, extra)).encode()).hexdigest()[:20]
         self.key = key
         self.dir = os.path.join(WORK, key)
         os.makedirs(self.dir, exist_ok=True)
@@ -440,4 +440,199 @@ def parse_report(out):
     for dm in re.finditer(r'\("([^"]*)",\s*\[(.*?)\]\)', txt, re.S):
         obs = [(a, b == 'true') for a, b in re.findall(r'\("([^"]*)",\s*(true|false)\)', dm.group(2))]
         res.append((dm.group(1), obs))
+    return res
+
+
+# ------------------------------------------------------------------------------------------------
+# stage: behaviour (compiled real code in two profiles  vs  eval of the translation  vs  Spec.v)
+
+def parse_coq_lists(txt):
+    """'[([1; (-1)%Z], [..], [..]); ...]' -> python lists"""
+    txt = txt.replace('%Z', '').replace('%N', '')
+    txt = re.sub(r'\((-\d+)\)', r'\1', txt)
+    txt = txt.replace(';', ',').replace('(', '[').replace(')', ']')
+    return json.loads(txt)
+
+
+def build_runner(ws, todo, by_name):
+    """build src/bin/runner.rs for the declarations in `todo` in the dev and release profiles"""
+    os.makedirs(ws.path('crate', 'src', 'bin'), exist_ok=True)
+    from . import runner
+    open(ws.path('crate', 'src', 'bin', 'runner.rs'), 'w').write(runner.runner_source(todo, by_name))
+    env = {'BITBYBIT_VERIF_DUMP_DIR': ws.path('dumps2'), 'CARGO_TARGET_DIR': ws.target}
+    os.makedirs(ws.path('dumps2'), exist_ok=True)
+    run(['cargo', 'build', '--offline', '--bin', 'runner'], cwd=ws.path('crate'), env=env, timeout=3000)
+    run(['cargo', 'build', '--offline', '--release', '--bin', 'runner'], cwd=ws.path('crate'), env=env, timeout=3000)
+    shutil.copy(os.path.join(ws.target, 'debug', 'runner'), ws.path('runner-dev'))
+    shutil.copy(os.path.join(ws.target, 'release', 'runner'), ws.path('runner-release'))
+
+
+def behaviour_compare(ws, todo, allcases, by_name, xl, subdir, max_mism=200):
+    """run `allcases` ({decl name: [(r0, ops)]}) on the compiled real code (dev, release), on eval of the
+    translated expansion (checked, unchecked) and on Spec.v; -> result dict with mismatches"""
+    from . import cases
+    bins = {'dev': ws.path('runner-dev'), 'release': ws.path('runner-release')}
+    lines = []
+    for d in todo:
+        fidx = {f['name']: k for k, f in enumerate(d['fields'])}
+        lines.append('D %s' % d['name'])
+        for r0, ops in allcases[d['name']]:
+            lines.append('N %x' % r0)
+            for o in ops:
+                if o[0] == 'G':
+                    lines.append('G %d %d' % (fidx[o[1]], o[2]))
+                elif o[0] in 'WS':
+                    lines.append('%s %d %d %x' % (o[0], fidx[o[1]], o[2], o[3]))
+                else:
+                    lines.append('R')
+    cdir = ws.path(subdir)
+    shutil.rmtree(cdir, ignore_errors=True)
+    os.makedirs(cdir)
+    cf = os.path.join(cdir, 'cases.txt')
+    open(cf, 'w').write('\n'.join(lines) + '\n')
+    outs = {}
+    for prof, b in bins.items():
+        p = subprocess.run([b], stdin=open(cf), stdout=subprocess.PIPE, stderr=subprocess.PIPE, text=True, timeout=3000)
+        if p.returncode != 0:
+            raise RuntimeError('runner (%s) failed: %s' % (prof, p.stderr[-2000:]))
+        o = p.stdout.split('\n')
+        if o and o[-1] == '':
+            o.pop()
+        if len(o) != len(lines):
+            raise RuntimeError('runner (%s) produced %d lines for %d inputs' % (prof, len(o), len(lines)))
+        outs[prof] = o
+    rust = {}
+    pos = 0
+    for d in todo:
+        pos += 1  # D
+        per = []
+        for r0, ops in allcases[d['name']]:
+            pos += 1  # N
+            per.append({p: outs[p][pos:pos + len(ops)] for p in outs})
+            pos += len(ops)
+        rust[d['name']] = per
+    # the same cases through the translation and the specification, inside Coq
+    order = sorted(todo, key=lambda d: -sum(len(o) + 1 for _, o in allcases[d['name']]))
+    shards = [[] for _ in range(NSHARDS)]
+    load = [0] * NSHARDS
+    for d in order:
+        k = load.index(min(load))
+        shards[k].append(d)
+        load[k] += sum(len(o) + 1 for _, o in allcases[d['name']])
+    shards = [s for s in shards if s]
+
+    def do_shard(k):
+        sh = shards[k]
+        src = [CASE_HEADER.replace('Validate Prog.', 'Validate Prog Run.')]
+        for d in sh:
+            src.append('Definition d_%s : decl :=\n  %s.' % (d['name'], decls.coq_decl(d)))
+            src.append('Definition p_%s : program :=\n  %s.' % (d['name'], coq_program(d['name'], xl[d['name']])))
+            sc = allcases[d['name']]
+            src.append("Definition r_%s := Eval vm_compute in map (fun '(r0, ops) => run3 d_%s p_%s r0 ops) [\n  %s]." % (
+                d['name'], d['name'], d['name'],
+                ';\n  '.join('(%d, [%s])' % (r0, '; '.join(cases.coq_op(o) for o in ops)) for r0, ops in sc)))
+            src.append('Print r_%s.' % d['name'])
+        fn = os.path.join(cdir, 'behav_%d.v' % k)
+        open(fn, 'w').write('\n'.join(src) + '\n')
+        p = run(['coqc', '-noglob', '-Q', os.path.join(COQ, 'theories'), 'BB', fn], cwd=cdir, check=False, timeout=3000)
+        return k, p.returncode, p.stdout, p.stderr
+
+    model = {}
+    with ThreadPoolExecutor(max_workers=16) as ex:
+        for k, rc, out, err in ex.map(do_shard, range(len(shards))):
+            if rc != 0:
+                raise RuntimeError('coqc failed on behaviour shard %d:\n%s' % (k, err[-3000:]))
+            for m in re.finditer(r'r_(\w+)\s*=\s*(\[.*?\])\s*:\s*list', out, re.S):
+                model[m.group(1)] = parse_coq_lists(m.group(2))
+    mism = []
+    n_ops = 0
+    n_scen = 0
+    stats = {'G': 0, 'W': 0, 'S': 0, 'R': 0, 'panic': 0, 'ok': 0, 'err': 0}
+    distinct = set()
+
+    def norm(s):
+        if s == 'P':
+            return -1, None
+        if s.startswith('ok:'):
+            return int(s[3:], 16), 'ok'
+        if s.startswith('err:'):
+            return int(s[4:], 16), 'err'
+        if s in ('M', '?'):
+            return -3, None
+        return int(s, 16), None
+
+    for d in todo:
+        name = d['name']
+        fbn = {f['name']: f for f in d['fields']}
+        mres = model.get(name)
+        if mres is None or len(mres) != len(allcases[name]):
+            mism.append({'decl': name, 'what': 'model output missing'})
+            continue
+        for si, (r0, ops) in enumerate(allcases[name]):
+            n_scen += 1
+            chk, unchk, spec = mres[si]
+            rs = rust[name][si]
+            for oi, o in enumerate(ops):
+                n_ops += 1
+                stats[o[0]] += 1
+                rd, tagd = norm(rs['dev'][oi])
+                rr, tagr = norm(rs['release'][oi])
+                ec = chk[oi] if oi < len(chk) else None
+                eu = unchk[oi] if oi < len(unchk) else None
+                sp = spec[oi] if oi < len(spec) else None
+                bad = None
+                if rd != sp or rr != sp:
+                    bad = 'compiled code differs from the specification (Spec.v)'
+                elif rd != rr or tagd != tagr:
+                    bad = 'dev and release builds differ'
+                elif rd != ec or rr != eu:
+                    bad = 'compiled code differs from eval of the translated expansion'
+                if rd == -1:
+                    stats['panic'] += 1
+                if tagd is not None and bad is None:
+                    stats[tagd] += 1
+                    f = fbn[o[1]]
+                    ed = by_name.get(f['ty']['name'])
+                    if ed is not None and ed['kind'] == 'enum':
+                        valid = rd in cases.enum_valid_values(ed)
+                        if (tagd == 'ok') != valid:
+                            bad = 'Option<enum> getter returned %s for raw bits %d' % (tagd, rd)
+                if o[0] != 'R' and (o[0] == 'G' or o[3] != 0 or r0 != 0):
+                    distinct.add((name, o[1], o[0]))
+                if bad:
+                    if len(mism) < max_mism:
+                        mism.append({'decl': name, 'scenario': si, 'r0': r0, 'ops': [list(x) for x in ops[:oi + 1]], 'op_index': oi,
+                                     'field': o[1] if o[0] != 'R' else None, 'op': o[0], 'what': bad,
+                                     'rust_dev': rs['dev'][oi], 'rust_release': rs['release'][oi],
+                                     'eval_checked': ec, 'eval_unchecked': eu, 'spec': sp})
+                    else:
+                        mism.append(None)
+                    break
+    n_m = len(mism)
+    mism = [m for m in mism if m is not None]
+    return {'programs': len(todo), 'scenarios': n_scen, 'ops': n_ops, 'stats': stats, 'distinct': len(distinct),
+            'mismatches': mism, 'n_mismatches': n_m}
+
+
+def stage_behaviour(ws, ds, verdicts, xl):
+    if ws.done('behaviour'):
+        return ws.load('behaviour')
+    import random
+    from . import cases
+    t0 = time.time()
+    by_name = {d['name']: d for d in ds}
+    acc = set(verdicts['accepted'])
+    todo = [d for d in ds if d['kind'] == 'bitfield' and d['name'] in acc and d['name'] in xl]
+    build_runner(ws, todo, by_name)
+    t_build = time.time() - t0
+    allcases = {}
+    for d in todo:
+        rng = random.Random('%s|%s' % (ws.seed, d['name']))
+        allcases[d['name']] = cases.gen_cases(d, by_name, rng, ws.tier)
+    res = behaviour_compare(ws, todo, allcases, by_name, xl, 'coqb')
+    res['wall_s'] = time.time() - t0
+    res['build_s'] = t_build
+    ws.mark('behaviour', res)
+    log('behaviour: %d programs, %d scenarios, %d ops, %d mismatches, %.1fs (build %.1fs)' % (
+        res['programs'], res['scenarios'], res['ops'], res['n_mismatches'], res['wall_s'], t_build))
     return res
